@@ -39,6 +39,7 @@ MANIFEST = {
             'types (int, float, Decimal, Fraction) in one column; a '
             'callable first key of two; key-less sorts with a comparison '
             'function / direction (sort="/cmp/desc").',
+    'more': 'Also: lists of 9..257 elements in four key patterns (scale); text keys whose full case folding differs from their lower-case form.',
     'note': 'Trusted: the 30-line comparison model in this driver (Python '
             '<, str.lower for nocase).  The mutual order of None/missing '
             'keys is not checked, as the statement says.',
